@@ -26,6 +26,7 @@ import c06lib as L  # noqa: E402
 import oddroots  # noqa: E402
 import nonfresh  # noqa: E402
 import roottie  # noqa: E402
+import passes  # noqa: E402
 from c06lib import T  # noqa: E402
 
 LEVEL = "proof"
@@ -471,6 +472,11 @@ def run(ctx):
             ctx.coverage["rule"] = "replay of %s" % ctx.replay
             ctx.coverage["evaluations"] = oddroots.run(ctx, factory, work, only=rj["oddroots"])
             return
+        if rj.get("passes"):
+            # replay of an (image, options) pair of the class "the walks of the unpacker agree" (props/C06/passes.py)
+            ctx.coverage["rule"] = "replay of %s" % ctx.replay
+            ctx.coverage["evaluations"] = passes.run(ctx, factory, work, only=rj["passes"])
+            return
         if rj.get("nonfresh"):
             # replay of a (first image / hand-made content, second image) pair of the class "non-fresh roots" (props/C06/nonfresh.py)
             ctx.coverage["rule"] = "replay of %s" % ctx.replay
@@ -502,6 +508,10 @@ def run(ctx):
         # class "non-fresh roots": R pre-populated by really unpacking a first image / by hand with links, files, directories at
         # the names a second image uses; oracle = the characterisation of unpack_nonfresh_characterised, model-free
         ctx.coverage["evaluations"] += nonfresh.run(ctx, factory, work)
+        # class "the walks agree": images with entries is_filename_sane refuses (every kind, every position) x option matrix;
+        # oracle = same complete observable (exit status, tree, modes, owners, times, xattrs) as the image without them
+        # (skip_is_local / passes_agree), evaluated on the implementation; a disagreement is a concrete image + options
+        ctx.coverage["evaluations"] += passes.run(ctx, factory, work)
         # tie of the unpack-root model (RootsModel.v: mkdir_p_calls, chdir, main_unpack) to mkdir_p.c / main()
         drv2 = core.build_model_driver("C06roots", "ExtractC06Roots.v", os.path.join(HERE, "roots_driver.ml"))
         ctx.coverage["evaluations"] += roottie.run(ctx, factory, work, drv2, mkdir_p_expected, RFORMS)
